@@ -15,36 +15,51 @@
    PROVED BELOW
      for ALL L and all coefficient functions (any cring, any [half]):
        - graph = chain list: C07_mol_opt_den(_rev), C07_spin_mol_opt_den(_rev)  (every cover oracle, whenever the model of
-         from_opchains returns a graph; C05 leaves success of from_opchains unproved, it is evaluated per case);
+         from_opchains returns a graph; the graph is then well linked);
+       - C07_mol_opt_total: with the proved model of minimum_vertex_cover the spinless optimized construction SUCCEEDS for
+         every L >= 1 and all coefficients with at least one non-vanishing chain coefficient (t_ij or antisymmetrised v);
+         when all of them vanish (the zero operator, e.g. L = 1 and t_00 = 0) from_opchains fails -- model and code;
        - the enumerated spinless list: its length, every chain well formed and inside the lattice, the interleaved charges
          are the running particle balance from 0 to 0 (C07_mol_chains_length/_wf/_wf_chains);
        - soundness of the translation validation for ANY graph (C07_den_from_walks, C07_graph_chains_validated,
          C07_both_paths_agree, C07_spin_both_paths_agree).
      BOUNDED in L, for all coefficient values over every cring (kernel-evaluated symbolic comparison, vm_compute):
-       - (F1) for L <= 8 (spinless) and L <= 5 (spin): C07_mol_formula_bounded_partial, C07_spin_formula_bounded_partial,
+       - (F1) for L <= 10 (spinless) and L <= 6 (spin): C07_mol_formula_bounded_partial, C07_spin_formula_bounded_partial,
          C07_mol_opt_formula_partial, C07_spin_mol_opt_formula_partial.
    NOT PROVED (correspondence check / implementation-level predicate only):
-       - (F1) for L > 8 resp. L > 5 (the general induction over the relative order of i, j, k, l is not done);
+       - (F1) for L > 10 resp. L > 6 (the general induction over the relative order of i, j, k, l is not done);
        - (F2): the explicit constructions are not modelled; on every generated case the graph the IMPLEMENTATION builds
          (exact dyadic coefficients; L = 4..7 spinless, 2..5 spin) is checked in Coq by [check_graph_chains] against the
          model's chain list, which by the theorems below gives consistency and equality of both paths for that input;
-       - for the spin enumeration: that to_spin_opchain never raises (evaluated: L <= 5 here, per case in the harness);
+       - for the spin enumeration: that to_spin_opchain never raises and the chains are well formed for every L (kernel
+         evaluated for L <= 6: C07_spin_exact_partial; per case in the harness), hence success of the spin construction
+         beyond that range;
        - (F3): nothing is proved about the gauge matrices; they are tested by the implementation-level predicate of
          harness/props/c07.py (random unitaries) and, for a family of exact unitaries, by an exact evaluation in Coq of
          the MPO identity (Model/MolGauge.v, per case). *)
 From Coq Require Import ZArith QArith Qcanon List Bool Lia.
 From PT Require Import Base.Scalar Base.BigSum Model.OpGraph Model.FromOpchains Model.GraphMPO
-                       Model.Molecular Model.MolFormula Model.MolCheck
+                       Model.Molecular Model.MolFormula Model.MolCheck Model.MolExampleData
                        Proofs.DenRev_C05 Proofs.MolOpt Proofs.MolWalks Proofs.MolFormulaProofs.
+(* [cover_model] below is Model/FromOpchains.v's cover computed by the model of bipartite_graph.py (C18) *)
 Import ListNotations.
 Open Scope Z_scope.
 
 (* ---- (a) optimized path: graph = enumerated chain list, all L ---- *)
 Theorem C07_mol_opt_den : forall (R : cring) (half : R) cover L t v g, (1 <= L)%nat ->
-  from_opchains cover (mol_chains half L t v) L 0 = Ok g -> linked g = true ->
-  forall w, den g w = chains_den L 0 (mol_chains half L t v) w.
+  from_opchains cover (mol_chains half L t v) L 0 = Ok g ->
+  linked g = true /\ forall w, den g w = chains_den L 0 (mol_chains half L t v) w.
 Proof. exact mol_opt_den. Qed.
 Print Assumptions C07_mol_opt_den.
+
+(* success: every L >= 1, every coefficient pair with a non-vanishing chain coefficient *)
+Theorem C07_mol_opt_total : forall (R : cring) (half : R) L t v, (1 <= L)%nat ->
+  ((exists i j, (i < L)%nat /\ (j < L)%nat /\ t i j <> k0 R) \/
+   (exists i j k l, (i < j < L)%nat /\ (k < l < L)%nat /\ gint half v i j k l <> k0 R)) ->
+  exists g, from_opchains cover_model (mol_chains half L t v) L 0 = Ok g /\ linked g = true /\
+            forall w, den g w = chains_den L 0 (mol_chains half L t v) w.
+Proof. exact mol_opt_total. Qed.
+Print Assumptions C07_mol_opt_total.
 
 Theorem C07_mol_opt_den_rev : forall (R : cring) (half : R) cover L t v g, (1 <= L)%nat ->
   from_opchains cover (mol_chains half L t v) L 0 = Ok g ->
@@ -53,8 +68,8 @@ Proof. exact mol_opt_den_rev. Qed.
 Print Assumptions C07_mol_opt_den_rev.
 
 Theorem C07_spin_mol_opt_den : forall (R : cring) (half : R) cover L t v cs g, (1 <= L)%nat ->
-  spin_chains half L t v = Ok cs -> from_opchains cover cs L 0 = Ok g -> linked g = true ->
-  forall w, den g w = chains_den L 0 cs w.
+  spin_chains half L t v = Ok cs -> from_opchains cover cs L 0 = Ok g ->
+  linked g = true /\ forall w, den g w = chains_den L 0 cs w.
 Proof. exact spin_mol_opt_den. Qed.
 Print Assumptions C07_spin_mol_opt_den.
 
@@ -99,14 +114,14 @@ Proof. exact check_graph_chains_sound. Qed.
 Print Assumptions C07_graph_chains_validated.
 
 Theorem C07_both_paths_agree : forall (R : cring) (half : R) cover L t v gopt gexp, (1 <= L)%nat ->
-  from_opchains cover (mol_chains half L t v) L 0 = Ok gopt -> linked gopt = true ->
+  from_opchains cover (mol_chains half L t v) L 0 = Ok gopt ->
   poly_eqb (walks gexp L (g_t0 gexp)) (chain_poly L 0 (mol_chains half L t v)) = true ->
   forall w, length w = L -> den gexp w = den gopt w.
 Proof. exact both_paths_agree. Qed.
 Print Assumptions C07_both_paths_agree.
 
 Theorem C07_spin_both_paths_agree : forall (R : cring) (half : R) cover L t v cs gopt gexp, (1 <= L)%nat ->
-  spin_chains half L t v = Ok cs -> from_opchains cover cs L 0 = Ok gopt -> linked gopt = true ->
+  spin_chains half L t v = Ok cs -> from_opchains cover cs L 0 = Ok gopt ->
   poly_eqb (walks gexp L (g_t0 gexp)) (chain_poly L 0 cs) = true ->
   forall w, length w = L -> den gexp w = den gopt w.
 Proof. exact spin_both_paths_agree. Qed.
@@ -124,35 +139,63 @@ Theorem C07_mol_formula_of_check : forall (R : cring) (half : R) t v L, mol_form
 Proof. exact mol_formula_of_check. Qed.
 Print Assumptions C07_mol_formula_of_check.
 
-Theorem C07_mol_formula_bounded_partial : forall (R : cring) (half : R) t v L, (L <= 8)%nat ->
+Theorem C07_mol_formula_bounded_partial : forall (R : cring) (half : R) t v L, (L <= 10)%nat ->
   forall w, chains_den L 0 (mol_chains half L t v) w = mol_formula half L t v w.
 Proof. exact mol_formula_bounded. Qed.
 Print Assumptions C07_mol_formula_bounded_partial.
 
-Theorem C07_spin_formula_bounded_partial : forall (R : cring) (half : R) t v L, (L <= 5)%nat ->
+Theorem C07_spin_formula_bounded_partial : forall (R : cring) (half : R) t v L, (L <= 6)%nat ->
   exists cs, spin_chains half L t v = Ok cs /\ forall w, chains_den L 0 cs w = spin_formula half L t v w.
 Proof. exact spin_formula_bounded. Qed.
 Print Assumptions C07_spin_formula_bounded_partial.
 
 (* optimized graph = formula (F1), bounded *)
-Theorem C07_mol_opt_formula_partial : forall (R : cring) (half : R) cover L t v g, (1 <= L <= 8)%nat ->
-  from_opchains cover (mol_chains half L t v) L 0 = Ok g -> linked g = true ->
+Theorem C07_mol_opt_formula_partial : forall (R : cring) (half : R) cover L t v g, (1 <= L <= 10)%nat ->
+  from_opchains cover (mol_chains half L t v) L 0 = Ok g ->
   forall w, den g w = mol_formula half L t v w.
 Proof.
-  intros R half cover L t v g [H1 H2] Hg Hl w.
-  rewrite (mol_opt_den R half cover L t v g H1 Hg Hl w). apply mol_formula_bounded. exact H2.
+  intros R half cover L t v g [H1 H2] Hg w.
+  rewrite (proj2 (mol_opt_den R half cover L t v g H1 Hg) w). apply mol_formula_bounded. exact H2.
 Qed.
 Print Assumptions C07_mol_opt_formula_partial.
 
-Theorem C07_spin_mol_opt_formula_partial : forall (R : cring) (half : R) cover L t v cs g, (1 <= L <= 5)%nat ->
-  spin_chains half L t v = Ok cs -> from_opchains cover cs L 0 = Ok g -> linked g = true ->
+Theorem C07_spin_mol_opt_formula_partial : forall (R : cring) (half : R) cover L t v cs g, (1 <= L <= 6)%nat ->
+  spin_chains half L t v = Ok cs -> from_opchains cover cs L 0 = Ok g ->
   forall w, den g w = spin_formula half L t v w.
 Proof.
-  intros R half cover L t v cs g [H1 H2] Hc Hg Hl w.
-  rewrite (spin_mol_opt_den R half cover L t v cs g H1 Hc Hg Hl w).
+  intros R half cover L t v cs g [H1 H2] Hc Hg w.
+  rewrite (proj2 (spin_mol_opt_den R half cover L t v cs g H1 Hc Hg) w).
   destruct (spin_formula_bounded R half t v L H2) as [cs' [E F]]. rewrite Hc in E. inversion E; subst. apply F.
 Qed.
 Print Assumptions C07_spin_mol_opt_formula_partial.
+
+(* (F1) with success, bounded: the optimized spinless construction returns a graph denoting the formula *)
+Theorem C07_mol_exact_partial : forall (R : cring) (half : R) L t v, (1 <= L <= 10)%nat ->
+  ((exists i j, (i < L)%nat /\ (j < L)%nat /\ t i j <> k0 R) \/
+   (exists i j k l, (i < j < L)%nat /\ (k < l < L)%nat /\ gint half v i j k l <> k0 R)) ->
+  exists g, from_opchains cover_model (mol_chains half L t v) L 0 = Ok g /\ linked g = true /\
+            forall w, den g w = mol_formula half L t v w.
+Proof.
+  intros R half L t v [H1 H2] Hn. destruct (mol_opt_total R half L t v H1 Hn) as [g [Hg [Hl Hd]]].
+  exists g. repeat split; auto. intros w. rewrite Hd. apply mol_formula_bounded. exact H2.
+Qed.
+Print Assumptions C07_mol_exact_partial.
+
+(* spin orbitals, bounded: the enumeration never raises, equals the formula, and (unless all chain coefficients vanish) the
+   optimized construction returns a graph denoting the formula *)
+Theorem C07_spin_exact_partial : forall (R : cring) (half : R) L t v, (1 <= L <= 6)%nat ->
+  exists cs, spin_chains half L t v = Ok cs /\
+    (forall w, chains_den L 0 cs w = spin_formula half L t v w) /\
+    ((exists c, In c cs /\ c_coeff c <> k0 R) ->
+     exists g, from_opchains cover_model cs L 0 = Ok g /\ linked g = true /\ forall w, den g w = spin_formula half L t v w).
+Proof.
+  intros R half L t v HL.
+  destruct (spin_mol_opt_total_bounded R half L t v HL) as [cs [Hc Hs]].
+  destruct (spin_formula_bounded R half t v L (proj2 HL)) as [cs' [Hc' Hf]].
+  rewrite Hc in Hc'. inversion Hc'; subst cs'. exists cs. repeat split; auto.
+  intros Hn. destruct (Hs Hn) as [g [Hg [Hl Hd]]]. exists g. repeat split; auto. intros w. rewrite Hd. apply Hf.
+Qed.
+Print Assumptions C07_spin_exact_partial.
 
 (* ---- non-vacuity (vm_compute): concrete rational coefficient functions meet every hypothesis ---- *)
 Definition exq (n : Z) (d : positive) : Qc := Q2Qc (Qmake n d).
@@ -185,4 +228,13 @@ Example C07_nonvacuous_spin :
       end
   | Err _ => False
   end.
+Proof. vm_compute. repeat split; reflexivity. Qed.
+(* translation validation: the graph the IMPLEMENTATION built with optimize=False for L = 4 (Model/MolExampleData.v, generated from a
+   run of pytenet) passes the check against the model's chain list, so C07_graph_chains_validated / C07_both_paths_agree apply *)
+Example C07_nonvacuous_explicit :
+  let cs := @mol_chains QIring (Q2Qc (1 # 2), Q2Qc 0) 4 (@tab2 QIring ex4_t) (@tab4 QIring ex4_v) in
+  check_graph_chains (R := QIring) ex4_graph 4 0 cs ex4_fuel = true /\
+  poly_eqb (walks ex4_graph 4 (g_t0 ex4_graph)) (chain_poly 4 0 cs) = true /\
+  length (g_edges ex4_graph) = 78%nat /\
+  match from_opchains cover_model cs 4 0 with Ok g => linked g = true | Err _ => False end.
 Proof. vm_compute. repeat split; reflexivity. Qed.
